@@ -71,6 +71,27 @@ theorem c14_history_every_step (a b : List Impl.Event) (ed : Option Spec.Doc)
   obtain ⟨ed1, h1, _⟩ := Spec.run_prefix _ _ none ed h
   exact ⟨ed1, h1, c14_history a ed1 (Spec.lfHistory_prefix _ _ none hlf) h1⟩
 
+/-- **Workspace histories: several documents, and renames.**  The same for every history of a
+workspace: events of any number of documents interleaved, and `workspace/didRenameFiles` — the
+file of an open document is renamed (also back, also onto the path of a file the server tracks as
+closed: the buffer moves to the new URI with its text, version and open flag, `rename_document`),
+or a file that is not open is renamed (the old entry goes, the new path is registered from disk,
+and an open document at that path ignores it).  After every such history every URI agrees. -/
+theorem c14_workspace_history (evs : List Impl.WEvent) (ed : Spec.Store)
+    (hlf : Spec.lfWHistory (fun _ => none) (evs.map encodeWEvent) = true)
+    (h : Spec.wrun (fun _ => none) (evs.map encodeWEvent) = some ed) :
+    AgreeAll (Impl.wrun (fun _ => none) evs) ed :=
+  wrun_agree evs (fun _ => none) (fun _ => none) ed (fun _ => agree_none_none) hlf h
+
+/-- **`semanticTokens/full/delta`: the editor that applies the delta holds the current tokens.**
+For all token arrays `previous` (what the editor holds and the server cached) and `current`:
+applying the edits `semantic_tokens_delta_edits(previous, current)` to `previous` yields exactly
+`current` — the common suffix is bounded by what the common prefix leaves of BOTH arrays, so
+prefix and suffix never overlap (deleting one of several look-alike lines). -/
+theorem c14_token_delta {α : Type} [DecidableEq α] (previous current : List α) :
+    Spec.applyTokEdits previous (Impl.deltaEdits previous current) = current :=
+  applyTokEdits_deltaEdits previous current
+
 /-- **The analysed text is the document text, always.**  For every event sequence whatsoever (no
 guard, positions valid or not, disk events at any time): whenever the server tracks the document,
 the text the analysis database holds for it (`project.set_source_text`) is `Document.content` —
@@ -209,6 +230,35 @@ example :
     Spec.run none (evs.map encodeEvent) = some (some { units := encode16 ['x', 'y'], version := 2 }) ∧
     Impl.run none evs =
       some { text := ['x', 'y'], version := 2, isOpen := true, analysed := ['x', 'y'] } := by decide
+
+/-- `c14_token_delta` where prefix and suffix would overlap: one of three identical tokens is
+deleted; the edit deletes exactly one token. -/
+example :
+    Impl.deltaEdits [7, 1, 1, 1, 9] [7, 1, 1, 9] = [{ start := 3, deleteCount := 1, data := [] }] ∧
+    Impl.deltaEdits [7, 1, 1, 9] [7, 1, 1, 1, 9] = [{ start := 3, deleteCount := 0, data := [1] }] := by
+  decide
+
+/-- `c14_workspace_history`: an open dirty buffer (URI 0) is renamed to URI 1, the watcher reports
+DELETED for the old path and CREATED (with the stale disk text) for the new one, the editor keeps
+editing under the new URI; then the file is renamed back onto a path the server tracks as a closed
+document. -/
+example :
+    let evs : List Impl.WEvent :=
+      [.doc 0 (.watchedChanged (some ['o', 'l', 'd'])),
+       .doc 0 (.didOpen 1 ['o', 'l', 'd']),
+       .doc 0 (.didChange 2 [.range 0 0 0 3 ['n', 'e', 'w']]),
+       .renamed 0 1 (some ['o', 'l', 'd']),
+       .doc 0 .watchedDeleted,
+       .doc 1 (.watchedChanged (some ['o', 'l', 'd'])),
+       .doc 1 (.didChange 3 [.range 0 3 0 3 ['!']]),
+       .doc 0 (.watchedChanged (some ['x'])),
+       .renamed 1 0 (some ['o', 'l', 'd'])]
+    Spec.lfWHistory (fun _ => none) (evs.map encodeWEvent) = true ∧
+    (Spec.wrun (fun _ => none) (evs.map encodeWEvent)).map (fun st => (st 0, st 1)) =
+      some (some { units := encode16 ['n', 'e', 'w', '!'], version := 3 }, none) ∧
+    Impl.wrun (fun _ => none) evs 0 =
+      some { text := ['n', 'e', 'w', '!'], version := 3, isOpen := true, analysed := ['n', 'e', 'w', '!'] } ∧
+    Impl.wrun (fun _ => none) evs 1 = none := by decide
 
 /-- `c14_history` over the extended alphabet: the file is indexed, opened, edited (unsaved),
 rewritten on disk behind the editor's back (CHANGED), saved, closed, rewritten again (the closed
